@@ -5,5 +5,6 @@ import "verifharness/lach"
 func init() {
 	commands["lachreplay"] = func(a []string) int { return lach.CmdReplayStates(a, seed()) }
 	commands["vecreplay"] = lach.CmdVecReplay
+	commands["lachsearch"] = func(a []string) int { return lach.CmdSearch(a, seed()) }
 	commands["lachrecord"] = func(a []string) int { return lach.CmdRecord(a, seed()) }
 }
